@@ -61,7 +61,7 @@ def real_thread_run(cfg, tier, seed, results, broken, log):
     ]
     open(f"{d}/cmds.txt", "w").write("\n".join(lines) + "\n")
     hb = fw.harness_bin("release", "nohook")
-    rc, out = fw.sh(f"{hb} exec mt {d}/cmds.txt {d}/out", timeout=1200)
+    rc, out = fw.sh(f"{hb} exec mt {d}/cmds.txt {d}/out", timeout=3000)
     if rc != 0:
         log(f"real-thread run failed to execute (rc={rc}); supporting exploration only")
         return
